@@ -132,16 +132,16 @@ def _translate_type(onnx_type):
     return onnxscript.onnx_types.onnx_type_to_onnxscript_repr(onnx_type, reversible=False)
 
 
-def _translate_signature(inputs, outputs):
+def _translate_signature(inputs, outputs, rename=_cleanup_variable_name):
     """Produce the script-functions signature."""
 
     def input_sig(inp: ValueInfoProto | str):
         if isinstance(inp, ValueInfoProto):
             # GraphProto inputs/outputs are ValueInfoProto
-            return f"{_cleanup_variable_name(inp.name)}: {_translate_type(inp.type)}"
+            return f"{rename(inp.name)}: {_translate_type(inp.type)}"
 
         # FunctionProto inputs/outputs are just strings
-        return _cleanup_variable_name(inp)
+        return rename(inp)
 
     result = f"({', '.join([input_sig(x) for x in inputs])})"
     if outputs and isinstance(outputs[0], ValueInfoProto):
@@ -374,10 +374,11 @@ class _Exporter:
                             )
                         self.skipped_initializers[init_py_name] = init
                         continue
+                # The output keeps its ONNX name: _translate_node translates it (only once).
                 node = onnx.helper.make_node(  # noqa: TID251
                     "Constant",
                     [],
-                    [self._translate_onnx_var(init.name)],  # type: ignore[list-item]
+                    [init.name],
                     value=init,
                 )
                 pyinit = self._translate_node(node, opsets, indent=indent)
@@ -740,14 +741,18 @@ class _Exporter:
             indent_level = 1
             indent = ""
         add(f"{indent}@script()")
-        add(f"{indent}def {function_name}{_translate_signature(graph.input, graph.output)}")
+        # A main graph needs its own remapping scope, like a function body (for-loops write to it).
+        self._name_remappings.append({})
+        # The body is translated first (it numbers the short names of rename=True);
+        # the signature then uses the same renaming as the body.
+        body = self._translate_graph_body(graph, opsets, indent=indent_level)
+        signature = _translate_signature(graph.input, graph.output, self._translate_onnx_var)
+        add(f"{indent}def {function_name}{signature}")
         indent = indent + _SINGLE_INDENT
         doc = graph.doc_string
         if doc:
             add(f'{indent}"""{doc}"""')
-        # A main graph needs its own remapping scope, like a function body (for-loops write to it).
-        self._name_remappings.append({})
-        add(self._translate_graph_body(graph, opsets, indent=indent_level))
+        add(body)
         return_values = ", ".join(self._translate_onnx_var(x) for x in graph.output)
         add(f"{indent}return {return_values}")
         self._name_remappings.pop()
